@@ -28,7 +28,7 @@ ASSUMPTIONS = [
     "key_ops is demanded for the operations the statement lists (sign, verify, RSA encrypt/decrypt, AES/GCM wrap/unwrap, PBES2 derive)",
 ]
 OCT_SIZES = [16, 20, 24, 32, 48, 64]
-KEY_KINDS = ["oct%d" % n for n in OCT_SIZES] + ["rsa1024", "rsa", "P-256", "P-384", "P-521", "secp256k1", "Ed25519", "Ed448", "X25519", "X448"]
+KEY_KINDS = ["oct%d" % n for n in OCT_SIZES] + ["rsa1024", "rsa2047", "rsa2041", "rsa", "P-256", "P-384", "P-521", "secp256k1", "Ed25519", "Ed448", "X25519", "X448"]
 ALL_OPS = ["sign", "verify", "encrypt", "decrypt", "wrapKey", "unwrapKey", "deriveKey", "deriveBits"]
 DECL = [("none", {}), ("use-sig", {"use": "sig"}), ("use-enc", {"use": "enc"})] + [(f"ops-{o}", {"key_ops": [o]}) for o in ALL_OPS] + \
        [("ops-sign+verify", {"key_ops": ["sign", "verify"]}), ("ops-wrap+unwrap", {"key_ops": ["wrapKey", "unwrapKey"]}),
